@@ -132,6 +132,38 @@ class Ground(object):
                     return True
         return False
 
+    def negative_cycle_through_positive_cycle(self):
+        """Some atom that lies on a cycle through negation (full ground dependency graph) also lies on a cycle made of
+        positive dependencies only.  Used to delimit one known finding: the engine's cycle detection loses a
+        negative cycle whose path crosses nodes already marked as being on a (positive) cycle."""
+        pos_edges, all_edges = {}, {}
+        neg_pairs = []
+        for h, b, _ in self.rules:
+            for pos, a in b:
+                all_edges.setdefault(h, set()).add(a)
+                if pos:
+                    pos_edges.setdefault(h, set()).add(a)
+                else:
+                    neg_pairs.append((h, a))
+
+        def reach(src, edges):
+            seen, todo = set(), [src]
+            while todo:
+                x = todo.pop()
+                for y in edges.get(x, ()):
+                    if y not in seen:
+                        seen.add(y)
+                        todo.append(y)
+            return seen
+        on_neg = set()
+        for h, a in neg_pairs:
+            ra = reach(a, all_edges)
+            if h == a or h in ra:
+                # every atom on some path a ->* h lies on this cycle's strongly connected component
+                comp = set(x for x in ra | {a} if h in reach(x, all_edges) or x == h)
+                on_neg |= comp | {h, a}
+        return any(x in reach(x, pos_edges) for x in on_neg)
+
 
 def semantics(prog, max_worlds=20000):
     """-> dict(status=..., probs={atom: Fraction}, evidence_weight=Fraction, undefined=bool, negcycle=bool)"""
@@ -156,6 +188,7 @@ def semantics(prog, max_worlds=20000):
                 if q in true:
                     zq[q] += w
     out = dict(status="ok", evidence_weight=ze, undefined=undefined_relevant, negcycle=g.has_negative_cycle(),
+               negcycle_mixed=g.negative_cycle_through_positive_cycle(),
                queries=list(g.queries))
     if ze > 0:
         out["probs"] = dict((q, zq[q] / ze) for q in g.queries)
